@@ -13,7 +13,7 @@ LEVEL = 'fault_enumeration'
 RULE = ('one case = (adapter in {Local on the FS seam, S3Compatible on FakeS3, B2 on FakeB2}, operation in {exists, upload, upload_stream, download, '
         'download_stream, list_files, delete}, payload of 0..4 stream chunks +- 1 byte, pre-existing object or not), transferred through the '
         'wrapper chain the commands use (BytesIO -> RateLimitedIO.wrap -> TQDMIOReader/Writer). For the case ALL fault placements are '
-        'enumerated: local: every syscall of the fault-free run x {EIO, EACCES, ENOSPC short write} x consecutive count {1, 2, 4, 5, '
+        'enumerated: local: every syscall of the fault-free run x {EIO, EACCES, ENOSPC short write, parent directory removed (mktemp), ENOENT on a nested scandir} x consecutive count {1, 2, 4, 5, '
         'persistent}; HTTP: every request kind of the fault-free run x {ConnectError, ReadError, WriteError, 500, 503, 429, 429+retry-after, 401 '
         'expired (B2), 403} x position {before the first byte, after body chunk 1..k (upload and download), after the last byte with the '
         'response lost} x count {1, 2, 3, persistent}. Oracle: if the call returns, the stored / returned bytes are exactly the intended ones '
@@ -299,7 +299,7 @@ def judge(case, plan, out, base_requests, viol, probes, label):
     elif f['count'] is None:
         if status == 'ok' and not (f.get('lost_response') and op in ('upload', 'upload_stream', 'delete')):
             # a persistent fault on a request the operation needs cannot end in success
-            if _needed(case, f, out):
+            if _needed(case, f, out) and f.get('err') != 'RMPARENT':     # (removing an empty directory does not fail anything by itself)
                 viol.append({'cls': 'persistent-fault-swallowed', 'sig': sig, 'msg': f'{label}: every such request fails, yet the call returned {_s(val)}'})
                 return
         if status == 'raised':
@@ -365,6 +365,10 @@ def plans_for(case, base):
             idx = seen.get(kind, 0)
             seen[kind] = idx + 1
             errs = ['EIO', 'EACCES'] + (['ENOSPC'] if kind == 'write' else [])
+            if kind == 'mktemp':
+                errs.append('RMPARENT')      # the directory vanished under the upload (another client's clean-up)
+            if kind == 'scandir' and idx >= 1:
+                errs.append('ENOENT')        # a sub-directory vanished while the listing was walking the tree
             for err in errs:
                 for count in (1, 2, 4, 5, None):
                     plans.append([{'kind': kind, 'err': err, 'count': count, 'skip': idx}])
